@@ -50,6 +50,7 @@ func init() {
 		ruleMemberLoops(inPkgs("orb."), 17, 0),
 		ruleBoxPredicates(orbBoundPredicates),
 		ruleEqualSameKind,
+		ruleCompose(concatSpecs(reverseSpecs, cloneSpecs, boundSpecs), 100),
 	)
 
 	register("C01",
@@ -139,10 +140,11 @@ func init() {
 	)
 
 	register("C10",
-		"Structural necessary conditions of 'planar measures equal their exact values': every segment loop visits every consecutive pair and every member loop every member (or reads the skipped prefix elsewhere). Numeric identities are NOT decided.",
+		"Structural necessary conditions of 'planar measures equal their exact values': every segment loop visits every consecutive pair and every member loop every member (or reads the skipped prefix elsewhere); and, with the parts' own formulas left uninterpreted, the composition formulas as rational functions of the parts' measures: polygon area = |outer| - sum |hole| with the matching centroid, multi-polygon and collection area = sum over (top-dimensional) members with the area-weighted centroid, length = the distance function summed over every segment once, distance-from = the smallest measured segment/point distance with every segment measured once. The shoelace, segment-distance and line-centroid formulas themselves and all rounding are NOT decided.",
 		ruleMemberLoops(inPkgs("planar.", "internal/length."), 14, 5),
 		ruleShapeFaults(shapeConfig{label: "planar measures", keep: and(inPkgs("planar.", "internal/length."), func(k string) bool { return !strings.Contains(k, "Contains") }), floor: 6}),
 		ruleRunOnce(inPkgs("planar.", "internal/length."), 20),
+		ruleCompose(concatSpecs(planarMeasureSpecs, planarLengthSpecs), 90),
 	)
 
 	register("C14",
@@ -154,11 +156,12 @@ func init() {
 	)
 
 	register("C18",
-		"Structural necessary conditions of 'spherical measures sum over parts': member loops of polygon/multi-polygon/collection area and the shared length loops cover every member/segment. Identities on the sphere are NOT decided (thin claim).",
+		"Structural necessary conditions of 'spherical measures sum over parts': member loops of polygon/multi-polygon/collection area and the shared length loops cover every member/segment; and, with ringArea and the distance functions left uninterpreted, polygon area = |outer| - sum |hole|, multi-polygon and collection area = sum over members, length = the distance function summed over every segment once (as rational functions of the parts' measures). Identities on the sphere (distance, bearing, midpoint, ring area) are NOT decided.",
 		ruleMemberLoops(inPkgs("geo.", "internal/length."), 6, 2),
 		ruleShapeFaults(shapeConfig{label: "geo measures", keep: inPkgs("geo.", "internal/length."), floor: 5}),
 		ruleBoundAsPolygon,
 		ruleRunOnce(inPkgs("geo.", "internal/length."), 8),
+		ruleCompose(concatSpecs(geoAreaSpecs, geoLengthSpecs), 40),
 	)
 
 	register("C11",
